@@ -2803,6 +2803,8 @@ func (pc *PeerConnection) startTransports(
 	dtlsRole DTLSRole,
 	remoteUfrag, remotePwd, fingerprint, fingerprintHash string,
 ) {
+	verifStartTransports(pc, iceRole, dtlsRole)
+
 	// Start the ice transport
 	err := pc.iceTransport.Start(
 		pc.iceGatherer,
